@@ -396,6 +396,24 @@ fn main() {
                     }
                 }
             }
+            // ... and of EVERY prefix length up to 8 KiB + 8 (block sizes and thresholds need not be powers of two), followed
+            // by each kind of damaged or truncated tail, at the very end of the input and before more text
+            {
+                let long: Vec<u8> = (0..8200usize).map(|i| b'a' + (i % 26) as u8).collect();
+                let tails: [&[u8]; 9] = [b"\xc3", b"\xe2", b"\xe2\x82", b"\xf0", b"\xf0\x9f", b"\xf0\x9f\x98", b"\xff", b"\xc3\xa9", b"\xed\xa0\x80"];
+                for plen in 0..=8200usize {
+                    for t in tails {
+                        let mut v = long[..plen].to_vec();
+                        v.extend_from_slice(t);
+                        check_utf8(&v);
+                        if plen % 97 == 0 {
+                            v.extend_from_slice(b"ok");
+                            check_utf8(&v);
+                        }
+                        total += 1;
+                    }
+                }
+            }
             // the byte order mark is text like any other: at the start, doubled, truncated, in the middle
             for pre in [&[0xefu8, 0xbb, 0xbf][..], &[0xef, 0xbb, 0xbf, 0xef, 0xbb, 0xbf], &[0xef, 0xbb], &[0x41, 0xef, 0xbb, 0xbf], &[0xef, 0xbf, 0xbe]] {
                 for len in 0..=tail_max.min(2) {
@@ -485,6 +503,20 @@ fn main() {
                         let mut c = code;
                         for _ in 0..len { v.push(ALPHA[(c % 8) as usize]); c /= 8; }
                         v.extend_from_slice(&[0x6f, 0x6b]);
+                        check_utf16(&v);
+                        total += 1;
+                    }
+                }
+            }
+            // ... and after EVERY prefix length up to 2100 units: a surrogate pair, a lone lead, a lone trail, a pair and one
+            // more unit, a reversed pair (block sizes need not be powers of two)
+            {
+                let long: Vec<u16> = (0..2100usize).map(|i| if i % 7 == 3 { 0x00e9 } else { 0x61 + (i % 26) as u16 }).collect();
+                let tails: [&[u16]; 6] = [&[0xd83d, 0xde00], &[0xd83d], &[0xde00], &[0xd83d, 0xde00, 0x21], &[0xde00, 0xd83d], &[0xdbff, 0xdfff, 0xdbff, 0xdfff]];
+                for plen in 0..=2100usize {
+                    for t in tails {
+                        let mut v = long[..plen].to_vec();
+                        v.extend_from_slice(t);
                         check_utf16(&v);
                         total += 1;
                     }
